@@ -181,7 +181,14 @@ func runFaults(o opts, out *Output) {
 		var inKeys [][]string
 		nb := 1 + r.Intn(3)
 		for len(bars) < nb+2 {
+			g.Zero = c%10 == 3 && len(bars) == 0
 			data := genAny(g, r, sig)
+			g.Zero = false
+			if c%10 == 7 && sig == 0 && len(bars) == nb {
+				// the batch that will be altered carries bare spans only (no attributes, events or links: every id is null)
+				data = spansOfKinds(1+r.Intn(4), func(int) int { return 0 })
+				stats["bare_span_batches"]++
+			}
 			if itemCount(data) == 0 {
 				continue
 			}
@@ -254,6 +261,12 @@ func runFaults(o opts, out *Output) {
 				if ty != int32(last.ArrowPayloads[i].Type) {
 					lists = append(lists, []fault{{Kind: "relabel", I: i, Ty: ty}})
 				}
+			}
+		}
+		// the main record under every other type of the signal (the lenient related-table decoders must not swallow it)
+		for _, ty := range typeSet {
+			if ty != int32(last.ArrowPayloads[0].Type) {
+				lists = append(lists, []fault{{Kind: "relabel", I: 0, Ty: ty}})
 			}
 		}
 		lists = append(lists, nil) // the unaltered batch
@@ -353,6 +366,17 @@ func runFaults(o opts, out *Output) {
 			}
 			if res.Class == "ok" && mainPresent > 0 && res.Items < 0 {
 				out.Violation("C07", "main-record-discarded", fmt.Sprintf("consumer returned success with nothing although a main record was present in the batch (faults %v)", fl), replay)
+			}
+			// the main record still travels in the batch when it was merely relabelled
+			relabelledMain := false
+			for _, f := range fl {
+				if f.Kind == "relabel" && f.I == 0 && len(fl) == 1 {
+					relabelledMain = true
+				}
+			}
+			if res.Class == "ok" && relabelledMain && res.Items <= 0 {
+				stats["relabelled_main_success_with_nothing"]++
+				out.Violation("C07", "relabelled-main-record-discarded", fmt.Sprintf("the main record of the batch was relabelled to payload type %d; the consumer returned success with nothing instead of an error", fl[0].Ty), replay)
 			}
 			if len(fl) == 0 && (res.Class != "ok" || res.Items != mainRows[len(bars)-1]) {
 				out.Violation("C07", "clean-batch-not-decoded", fmt.Sprintf("the unaltered batch was not decoded completely: %s items=%d want=%d %s", res.Class, res.Items, mainRows[len(bars)-1], res.Msg), replay)
